@@ -54,6 +54,10 @@ def run(chk, tier):
                                                                                   "; not so at line %s where it is %s" % bad[0] if bad else ""))
         except AnalysisBroken as ex:
             chk.broke("R-FILTER: hwloc_linux_knl_numa_quirk not evaluable (%s)" % ex)
+    chk.rule("R-ERRCLEAN", "a failing return does not bypass the function's own cleanup: once the function has jumped to a cleanup label (discovered: its code releases something), every later failing return has made the label's releases itself on every path (must-facts on completed calls) -- otherwise what was built so far leaks")
+    import errclean
+    nec = errclean.run(chk, P, ["topology-linux.c", "topology-x86.c", "pci-common.c", "topology-pci.c"])
+    chk.floor("R-ERRCLEAN", "failing returns past a cleanup jump", nec, 1)
     import uninit
     uninit.wire(chk, P, ["topology-linux.c", "topology-x86.c", "pci-common.c", "topology-pci.c"], 30, 6)
     chk.rule("R-NULLELEM", "an array element that is tested for NULL somewhere in a function is not dereferenced unguarded elsewhere in it (missing files leave holes in node arrays)")
